@@ -22,6 +22,8 @@ pub enum Answer {
 pub enum Event {
     Send { bytes: Vec<u8>, t: i64, file: Option<(u64, u64)> },
     Recv { size: usize, t_call: i64, answer: Answer, t_return: i64 },
+    /// a datagram the socket refused (it was NOT emitted)
+    SendFailed { bytes: Vec<u8>, t: i64 },
     Closed { t: i64 },
 }
 
@@ -42,6 +44,8 @@ struct Inner {
     read_timeout: Duration,
     t_call: i64,
     last_sent: Vec<u8>,
+    sends: usize,
+    fail_send_at: Option<usize>,
 }
 
 pub struct Shared {
@@ -64,7 +68,7 @@ pub struct Driver {
 
 pub fn sim_pair(read_timeout: Duration, snapshot: Snapshot, path: &str, id: u16) -> (SimSocket, Driver) {
     let sh = Arc::new(Shared {
-        m: Mutex::new(Inner { recv_pending: None, answer: None, closed: false, events: vec![], read_timeout, t_call: 0, last_sent: vec![] }),
+        m: Mutex::new(Inner { recv_pending: None, answer: None, closed: false, events: vec![], read_timeout, t_call: 0, last_sent: vec![], sends: 0, fail_send_at: None }),
         cv: Condvar::new(),
         gen: std::sync::atomic::AtomicU64::new(0),
         snapshot,
@@ -128,6 +132,13 @@ impl Socket for SimSocket {
         // observation taken at the instant of emission, on the worker's own thread
         let file = file_snapshot(&self.sh.path, self.sh.snapshot);
         let mut g = self.sh.m.lock().unwrap();
+        let idx = g.sends;
+        g.sends += 1;
+        if g.fail_send_at == Some(idx) {
+            // environment answer "the socket refuses this datagram" (ENOBUFS, pending ECONNREFUSED, write timeout)
+            g.events.push(Event::SendFailed { bytes, t: tftpd::verif::sim_now_ns() });
+            return Err("simulated send error".into());
+        }
         // duplicate-packets mode: the subject pauses 1 ms (real time) before every further copy of a datagram; the same
         // millisecond passes on the virtual clock, so that a long burst of copies can reach the timeout
         if !g.last_sent.is_empty() && g.last_sent == bytes {
@@ -267,6 +278,10 @@ impl Driver {
         g.recv_pending = None;
         drop(g);
         self.sh.bump();
+    }
+
+    pub fn fail_send_at(&self, n: Option<usize>) {
+        self.sh.m.lock().unwrap().fail_send_at = n;
     }
 
     pub fn events_len(&self) -> usize {
@@ -455,6 +470,7 @@ pub fn describe_events(events: &[Event], max: usize) -> Vec<String> {
         out.push(match e {
             Event::Send { bytes, .. } => format!("-> {}", rc::describe(bytes)),
             Event::Recv { answer, .. } => format!("<- {}", describe_answer(answer)),
+            Event::SendFailed { bytes, .. } => format!("-x {} (send error)", rc::describe(bytes)),
             Event::Closed { .. } => "closed".into(),
         });
     }
@@ -489,6 +505,10 @@ pub fn trace_hash(events: &[Event]) -> u64 {
                         h.feed_u64(*delay_ns);
                     }
                 }
+            }
+            Event::SendFailed { bytes, .. } => {
+                h.feed(&[4]);
+                h.feed(bytes);
             }
             Event::Closed { .. } => h.feed(&[3]),
         }
